@@ -400,6 +400,15 @@ static void do_op(char *op)
 	} else if (!strcmp(a[0], "X") && n >= 3) {
 		child_exit(atoi(a[1]), atoi(a[2]));
 		drain_spawns(sp0);
+	} else if (!strcmp(a[0], "QM")) {
+		/* the table with the tasks' limits: uid:owner:max_simul */
+		struct { const char *uid; unsigned owner; int ms; } r[4096]; int nr = 0;
+		for (size_t i = 0; i < ztask_ht && nr < 4096; i++) if (task_ht[i].oid) {
+			_task_t t = task_ht[i].t;
+			r[nr].uid = obint_name(task_ht[i].oid) ?: "?"; r[nr].owner = echs_task_owner(t->t); r[nr].ms = t->t->max_simul; nr++;
+		}
+		for (int i = 0; i < nr; i++) for (int j = i + 1; j < nr; j++) if (strcmp(r[i].uid, r[j].uid) > 0) { __typeof(r[0]) x = r[i]; r[i] = r[j]; r[j] = x; }
+		for (int i = 0; i < nr; i++) out("%s%s:%u:%d", i ? "," : "", r[i].uid, r[i].owner, r[i].ms);
 	} else if (!strcmp(a[0], "Q")) {
 		struct { const char *uid; unsigned owner; uint64_t cur; size_t nrun, nsim; } r[4096]; int nr = 0;
 		for (size_t i = 0; i < ztask_ht && nr < 4096; i++) if (task_ht[i].oid) {
